@@ -8,6 +8,7 @@
    64 KiB first read and the exact-size second read of reader.go. *)
 From RW Require Import Base.Bytes Fmt.Frame Seg.Writer Seg.Recover Seg.Reader Seg.SegAbs
      Seg.WriterFacts Seg.ReaderFacts Gen.Constants.
+From RW Require Import Fmt.Codec Wal.Model Wal.TooBigFacts.
 Open Scope N_scope.
 
 (* every entry of every acknowledged batch is returned by the tail reader: any
@@ -61,6 +62,19 @@ Theorem C15_up_to_max_accepted :
     exists w' acts, append w es FNone = (WOk, w', acts).
 Proof. exact up_to_max_accepted. Qed.
 Print Assumptions C15_up_to_max_accepted.
+
+(* WAL level: StoreLogs never acknowledges a batch containing an entry whose ENCODING
+   (what the segment stores) is longer than MaxEntrySize -- in any state, closed or open,
+   empty or not, with or without an armed I/O fault.  (That every batch of entries within
+   the limit which the contiguous-log specification accepts IS acknowledged and read back
+   field by field is C12_store_get; that the abstract log is unchanged by a refused call is
+   part of the sequential refinement for batches within the guards.) *)
+Theorem C15_wal_too_big_refused :
+  forall c w ls e,
+    existsb (fun l => MaxEntrySize <? enc_len l) ls = true ->
+    fst (fst (store_logs c w ls e)) <> ROk.
+Proof. exact store_logs_too_big. Qed.
+Print Assumptions C15_wal_too_big_refused.
 
 (* non-vacuity: an entry larger than the whole segment (limit 64) in the middle
    of a batch is accepted, seals the segment, and all three entries read back *)
